@@ -84,7 +84,20 @@ class Outcome:
         self.invoker: Optional[int] = None
 
 
-def execute(case: Dict[str, Any], M: Optional[Model] = None, built: Any = None, pre: Optional[Dict[str, Any]] = None) -> Outcome:
+def make_executor(b: Any, sel: Optional[Dict[str, Any]]) -> Any:
+    """dag.executor(...) for a selection given by sites (whole-DAG executor when sel is empty)."""
+    kw = {}
+    if sel and any(sel.get(k) is not None for k in "TXR"):
+        ids = b.node_ids()
+        for k, name in (("T", "target_nodes"), ("X", "exclude_nodes"), ("R", "root_nodes")):
+            if sel.get(k) is not None:
+                kw[name] = [ids[s] for s in sel[k]]
+    return b.dag.executor(**kw)
+
+
+def execute(case: Dict[str, Any], M: Optional[Model] = None, built: Any = None, pre: Optional[Dict[str, Any]] = None,
+            target_override: Any = None) -> Outcome:
+    """target_override: an executor object created earlier in the history (its selection is case["sel"])."""
     import threading
 
     M = M or Model(case)
@@ -138,13 +151,10 @@ def execute(case: Dict[str, Any], M: Optional[Model] = None, built: Any = None, 
                 else:
                     target = lambda *_a: dag_.setup(target_nodes=tn)  # noqa: E731
                 sel = None
-            if sel and any(sel.get(k) is not None for k in "TXR"):
-                ids = b.node_ids()
-                kw = {}
-                for k, name in (("T", "target_nodes"), ("X", "exclude_nodes"), ("R", "root_nodes")):
-                    if sel.get(k) is not None:
-                        kw[name] = [ids[s] for s in sel[k]]
-                target = b.dag.executor(**kw)
+            if target_override is not None:
+                target = target_override
+            elif sel and any(sel.get(k) is not None for k in "TXR"):
+                target = make_executor(b, sel)
         except BaseException as e:  # noqa: BLE001 - reported by the oracles
             out.build_exc = e
             return out
